@@ -18,6 +18,7 @@ def freevar_protocol(rep):
     to the free-variable protocol: functionalize() (spill helpers and argument closures) passes
     exactly freevars(), which SymbolCounter computes from defines_local / has_params / is_reference."""
     n = 0
+    keys = set()
     for rel in load.expression_files():
         tree = load.parse(rel)
         for cls in [c for c in tree.body if isinstance(c, ast.ClassDef)]:
@@ -28,7 +29,8 @@ def freevar_protocol(rep):
                         if isinstance(t, ast.Name) and isinstance(st.value, ast.Constant):
                             attrs[t.id] = st.value.value
             for m in cls.body:
-                if not (isinstance(m, ast.FunctionDef) and m.name in ('_compile', 'argumentize', 'compile')):
+                if not isinstance(m, ast.FunctionDef) or m.name in ('__init__', '__str__', 'complain', 'functionalize',
+                                                                     'error_func'):
                     continue
                 for node in ast.walk(m):
                     if not (isinstance(node, ast.Call) and isinstance(node.func, ast.Name) and node.func.id == 'Code'
@@ -38,12 +40,13 @@ def freevar_protocol(rep):
                     attr = None
                     if isinstance(a, ast.Attribute) and isinstance(a.value, ast.Name) and a.value.id == 'self':
                         attr = a.attr
-                    elif isinstance(a, ast.Name) and a.id in ('name',):
+                    elif isinstance(a, ast.Name) and a.id in ('name',) and cls.name == 'Seq':
                         attr = '<member name>'
                     if attr is None:
                         continue
                     n += 1
                     key = (cls.name, attr)
+                    keys.add(key)
                     if key in NOT_USER_LOCALS:
                         rep.oblige(True)
                         continue
@@ -59,7 +62,8 @@ def freevar_protocol(rep):
                                         f'function or argument closure built around it does not receive it (NameError)',
                                         f'{rel}:{cls.name}.{m.name} (line {node.lineno})'))
     rep.count('verbatim emission sites examined', n)
-    rep.floor('verbatim emission sites examined', n, 6)
+    rep.count('distinct (class, attribute) pairs emitted verbatim', len(keys))
+    rep.floor('distinct (class, attribute) pairs emitted verbatim', len(keys), 5)
     # SymbolCounter itself: binds on defines_local and has_params, references on is_reference
     base = load.parse('sourcer/expressions/base.py')
     sc = load.classes_of(base).get('SymbolCounter')
